@@ -64,12 +64,12 @@ class DictProvider(LoaderProvider, DumperProvider):
     def _get_loader_dt_disable(self, key_loader: Loader, value_loader: Loader):
         def dict_loader(data):
             try:
-                items_method = data.items
-            except AttributeError:
+                items = data.items()
+            except (AttributeError, TypeError):  # object can have non-callable attribute `items`
                 raise TypeLoadError(CollectionsMapping, data)
 
             result = {}
-            for k, v in items_method():
+            for k, v in items:
                 result[key_loader(k)] = value_loader(v)
 
             return result
@@ -79,12 +79,12 @@ class DictProvider(LoaderProvider, DumperProvider):
     def _get_loader_dt_first(self, key_loader: Loader, value_loader: Loader):
         def dict_loader_dt_first(data):
             try:
-                items_method = data.items
-            except AttributeError:
+                items = data.items()
+            except (AttributeError, TypeError):  # object can have non-callable attribute `items`
                 raise TypeLoadError(CollectionsMapping, data)
 
             result = {}
-            for k, v in items_method():
+            for k, v in items:
                 try:
                     loaded_key = key_loader(k)
                 except Exception as e:
@@ -106,14 +106,14 @@ class DictProvider(LoaderProvider, DumperProvider):
     def _get_loader_dt_all(self, key_loader: Loader, value_loader: Loader):  # noqa: C901
         def dict_loader_dt_all(data):
             try:
-                items_method = data.items
-            except AttributeError:
+                items = data.items()
+            except (AttributeError, TypeError):  # object can have non-callable attribute `items`
                 raise TypeLoadError(CollectionsMapping, data)
 
             result = {}
             errors = []
             has_unexpected_error = False
-            for k, v in items_method():
+            for k, v in items:
                 try:
                     loaded_key = key_loader(k)
                 except LoadError as e:
